@@ -12,6 +12,7 @@ type ConcProgram struct {
 	Entry         string
 	Deterministic bool // the Go result does not depend on the schedule
 	Boundary      bool // outside the subset of the pinned translator: rejecting it is fine, accepting it means translating it faithfully
+	Terminates    bool // every Go run finishes although the result depends on the schedule: the emitted program must not deadlock either
 }
 
 // ConcTemplates instantiates every template with seeded parameters.
@@ -227,6 +228,36 @@ func entry() uint64 {
 	return r
 }
 `, k(5, 50)))
+	// three goroutines asleep at the same time
+	s1, s2 := k(1, 40), k(50, 40)
+	add("sleepers-overlap", true, hdrM+fmt.Sprintf(`func entry() uint64 {
+	m := new(sync.Mutex)
+	wg := new(sync.WaitGroup)
+	x := new(uint64)
+	wg.Add(1)
+	go func() {
+		machine.Sleep(3000000)
+		m.Lock()
+		*x = *x + %d
+		m.Unlock()
+		wg.Done()
+	}()
+	wg.Add(1)
+	go func() {
+		machine.Sleep(3000000)
+		m.Lock()
+		*x = *x + %d
+		m.Unlock()
+		wg.Done()
+	}()
+	machine.Sleep(3000000)
+	wg.Wait()
+	m.Lock()
+	r := *x
+	m.Unlock()
+	return r
+}
+`, s1, s2))
 	// sleep before taking the lock
 	add("sleep-then-lock", true, hdrM+fmt.Sprintf(`func entry() uint64 {
 	m := new(sync.Mutex)
@@ -349,6 +380,61 @@ func entry() uint64 {
 	return work(%d)
 }
 `, v1, v2))
+	// go statement on a function literal WITH parameters: the argument is evaluated by the spawning goroutine
+	bnd("b-go-args", true, hdr+fmt.Sprintf(`func entry() uint64 {
+	mu := new(sync.Mutex)
+	wg := new(sync.WaitGroup)
+	var got uint64
+	x := uint64(%d)
+	wg.Add(1)
+	go func(y uint64) {
+		mu.Lock()
+		got = y + 1
+		mu.Unlock()
+		wg.Done()
+	}(x + %d)
+	wg.Wait()
+	return got
+}
+`, v1, v2))
+	// the idiomatic loop: the parameter shadows the loop variable and receives a value computed from it
+	bnd("b-go-args-loopvar", true, hdr+`func entry() uint64 {
+	mu := new(sync.Mutex)
+	wg := new(sync.WaitGroup)
+	var sum uint64
+	for i := uint64(0); i < 2; i++ {
+		wg.Add(1)
+		go func(i uint64) {
+			mu.Lock()
+			sum = sum + i*10
+			mu.Unlock()
+			wg.Done()
+		}(i + 1)
+	}
+	wg.Wait()
+	return sum
+}
+`)
+	// TryLock: never blocks; the holder takes the mutex after starting the prober and keeps it until the prober is done
+	bnd("b-trylock-contended", false, hdr+`func entry() uint64 {
+	mu := new(sync.Mutex)
+	wg := new(sync.WaitGroup)
+	var got uint64
+	wg.Add(1)
+	go func() {
+		if mu.TryLock() {
+			got = 1
+			mu.Unlock()
+		}
+		wg.Done()
+	}()
+	mu.Lock()
+	wg.Wait()
+	mu.Unlock()
+	return got
+}
+`)
+	ps[len(ps)-1].Terminates = true
 	// deferred unlock: the result must be read inside the critical section
 	bnd("b-defer-unlock", true, hdr+`type Ctr struct {
 	mu *sync.Mutex
